@@ -143,7 +143,7 @@ def _events(s):
     return int(m.group(1)), evs
 
 
-def check_events(evs, held, fwd, complete):
+def check_events(evs, held, fwd, complete, nonleaf=None):
     state = {}
     seq = []
     for i, o in evs:
@@ -151,6 +151,9 @@ def check_events(evs, held, fwd, complete):
             return "visit of %d which is not held" % i
         st = state.get(i)
         if o == "L":
+            if nonleaf is not None and i in nonleaf:
+                return ("non-leaf element %d was presented as a LEAF visit (it must be bracketed by one PRE "
+                        "and one POST visit)" % i)
             if st is not None:
                 return "element %d visited LEAF after %s" % (i, st)
             state[i] = "L"
@@ -179,6 +182,17 @@ def check_events(evs, held, fwd, complete):
             if state.get(i) not in ("L", "O"):
                 return "held element %d: visits incomplete (%s)" % (i, state.get(i))
     return None
+
+
+def _nonleaf(t):
+    """ids of the elements of the dumped tree `t` that have at least one child
+    (None when the shape is not available, e.g. in hashed mode)"""
+    if t in (None, "hashed"):
+        return None
+    try:
+        return set(n["id"] for n in inorder(t) if n["l"] is not None or n["r"] is not None)
+    except (TypeError, KeyError):
+        return None
 
 
 ERASE_CASES = {}
@@ -269,11 +283,11 @@ def oracle_c01(script, c_lines):
                     return pre + "%d visits made although visit %d returned non-zero" % (len(evs), k)
                 if r != 7:
                     return pre + "returned %d, the stopping visit returned 7" % r
-                e = check_events(evs, h, w[2] == "fwd", False)
+                e = check_events(evs, h, w[2] == "fwd", False, _nonleaf(prev.get(w[0])))
             else:
                 if r != 0:
                     return pre + "returned %d although every visit returned 0" % r
-                e = check_events(evs, h, w[2] == "fwd", True)
+                e = check_events(evs, h, w[2] == "fwd", True, _nonleaf(prev.get(w[0])))
             if e:
                 return pre + e
         elif o == "clear":
